@@ -46,12 +46,34 @@ static void only_queue_points() {
     cocls::verif::get_hooks().block = nullptr;
 }
 
-using tq_t = queue<int, primitives::std_queue, primitives::std_queue, ctl_lock>;
-using tlq_base = limited_queue<int, primitives::std_queue, primitives::std_queue, primitives::std_queue, ctl_lock>;
-struct lq_open : tlq_base {
-    using tlq_base::tlq_base;
-    using tq_t::unblock_pop;   // protected base of limited_queue
+template <typename T>
+using tq_t = queue<T, primitives::std_queue, primitives::std_queue, ctl_lock>;
+template <typename T>
+using tlq_base = limited_queue<T, primitives::std_queue, primitives::std_queue, primitives::std_queue, ctl_lock>;
+template <typename T>
+struct lq_open : tlq_base<T> {
+    using tlq_base<T>::tlq_base;
+    using tq_t<T>::unblock_pop;   // protected base of limited_queue
 };
+
+// item types: int; unique_ptr<int> (move-only); MoveZero (copyable, its move leaves the source observably empty, like std::string)
+struct MoveZero {
+    long v;
+    explicit MoveZero(long x) : v(x) {}
+    MoveZero(const MoveZero &o) : v(o.v) {}
+    MoveZero(MoveZero &&o) noexcept : v(o.v) { o.v = -54321; }
+    MoveZero &operator=(const MoveZero &o) { v = o.v; return *this; }
+    MoveZero &operator=(MoveZero &&o) noexcept { v = o.v; o.v = -54321; return *this; }
+};
+static long to_long(int &x) { return x; }
+static long to_long(std::unique_ptr<int> &x) { return x ? *x : -12345; }
+static long to_long(MoveZero &x) { return x.v; }
+template <typename T>
+static T make_item(long v) {
+    if constexpr (std::is_same_v<T, std::unique_ptr<int>>) return std::make_unique<int>((int)v);
+    else if constexpr (std::is_same_v<T, MoveZero>) return MoveZero(v);
+    else return (T)v;
+}
 
 template <typename F>
 static long outcome(F &f) {
@@ -60,7 +82,7 @@ static long outcome(F &f) {
             f.value();
             return 0;
         } else {
-            return (long)f.value();
+            return to_long(f.value());
         }
     } catch (const await_canceled_exception &) {
         return -1000000;
@@ -71,9 +93,9 @@ static long outcome(F &f) {
     }
 }
 
-template <bool Lim>
+template <bool Lim, typename T>
 static void run_case(const vh::Case &cs) {
-    using Q = std::conditional_t<Lim, lq_open, tq_t>;
+    using Q = std::conditional_t<Lim, lq_open<T>, tq_t<T>>;
     struct Decl {
         int role;
         std::vector<long> a;
@@ -98,7 +120,7 @@ static void run_case(const vh::Case &cs) {
     }
     int n = (int)decl.size();
     Q *q;
-    if constexpr (Lim) q = new lq_open((std::size_t)limit);
+    if constexpr (Lim) q = new lq_open<T>((std::size_t)limit);
     else q = new Q();
     bool destroyed = false;
     std::vector<std::vector<long>> res(n);
@@ -125,7 +147,7 @@ static void run_case(const vh::Case &cs) {
                 for (long v : d.a) {
                     if (destroyed) break;
                     if constexpr (Lim) {
-                        auto *f = new future<void>(q->push((int)v));
+                        auto *f = new future<void>(q->push(make_item<T>(v)));
                         ctl::block_until("q_wait", [&] { return f->ready(); });
                         long o = outcome(*f);   // the caller cannot tell "admitted at once" from "was blocked for a while"
                         res[i].push_back(o == 0 ? 0 : (o == -1000000 ? 99 : 100 - o));
@@ -133,7 +155,7 @@ static void run_case(const vh::Case &cs) {
                     } else {
                         bool r;
                         {
-                            auto sp = q->push((int)v);
+                            auto sp = q->push(make_item<T>(v));
                             r = (bool)sp;
                         }
                         ctl::block_until("q_wait", [] { return true; });
@@ -146,7 +168,7 @@ static void run_case(const vh::Case &cs) {
                 only_queue_points();
                 for (long k = 0; k < d.a[0]; k++) {
                     if (destroyed) break;
-                    auto *f = new future<int>(q->pop());
+                    auto *f = new future<T>(q->pop());
                     ctl::block_until("q_wait", [&] { return f->ready(); });
                     res[i].push_back(outcome(*f));
                     delete f;
@@ -201,9 +223,9 @@ static void run_case(const vh::Case &cs) {
     }
     // what is left in the queue (items, then the items of blocked pushes as pops make room), popped from this thread
     std::vector<long> fin{9, q ? (long)q->size() : 0};
-    std::vector<std::unique_ptr<future<int>>> keep;
+    std::vector<std::unique_ptr<future<T>>> keep;
     for (int guard = 0; q && guard < 1000 && q->size() > 0; guard++) {
-        keep.emplace_back(new future<int>(q->pop()));
+        keep.emplace_back(new future<T>(q->pop()));
         fin.push_back(outcome(*keep.back()));
     }
     vh::print_obs(fin);
@@ -217,8 +239,11 @@ int main(int argc, char **argv) {
     for (auto &cs : vh::read_cases(argv[1])) {
         std::printf("CASE %s\n", cs.name.c_str());
         std::fflush(stdout);
-        if (cs.engine == "tq") run_case<false>(cs);
-        else if (cs.engine == "tlq") run_case<true>(cs);
+        if (cs.engine == "tq") run_case<false, int>(cs);
+        else if (cs.engine == "tlq") run_case<true, int>(cs);
+        else if (cs.engine == "tqm") run_case<false, std::unique_ptr<int>>(cs);     // move-only items, pushed as rvalues
+        else if (cs.engine == "tlqm") run_case<true, std::unique_ptr<int>>(cs);
+        else if (cs.engine == "tlqs") run_case<true, MoveZero>(cs);                 // move leaves the source observably empty
         std::printf("END\n");
         std::fflush(stdout);
     }
